@@ -4,6 +4,7 @@ import (
 	"context"
 	"fmt"
 	"github.com/elnosh/gonuts/mint"
+	"os"
 
 	"verif/harness/bfs"
 	"verif/harness/mintops"
@@ -12,6 +13,9 @@ import (
 
 // runSpecs runs a list of BFS scenarios for one property and folds the statistics into the evidence.
 func runSpecs(c *rt.Ctx, specs []*bfs.Spec) {
+	if os.Getenv("VERIF_DEV_E1ONLY") != "" { // development aid: skip the sequential searches
+		return
+	}
 	for _, s := range specs {
 		if c.Expired() {
 			c.Exhaustive = false
